@@ -15,6 +15,11 @@ import (
 func init() {
 	register("C33", checkC33)
 	addBreakers("C33",
+		Breaker{Name: "accept-keeps-only-the-last-wait-outcome", File: "internal/replication/drivers/batcher.go",
+			Old: "\tfor ind, operation := range operations {", New: "\tvar lastErr error\n\tfor _, operation := range operations {",
+			Old2: "\t\tif _, err := operation.Wait(ctx); err != nil {\n\t\t\titemsErrors[ind] = fmt.Errorf(\"failure while waiting for operation completion: %w\", err)\n\t\t\tcontinue\n\t\t}\n\t}\n", New2: "\t\t_, lastErr = operation.Wait(ctx)\n\t}\n\tif lastErr == nil {\n\t\treturn itemsErrors, nil\n\t}\n", Expect: "ERRP/loop-carried-error"},
+		Breaker{Name: "update-pipeline-skips-nil-values", File: "internal/storage/system/store.go",
+			Old: "\tfor k, v := range o {\n\t\tupdateQuery = updateQuery.Set(k+\" = ?\", v)", New: "\tfor k, v := range o {\n\t\tif v == nil {\n\t\t\tcontinue\n\t\t}\n\t\tupdateQuery = updateQuery.Set(k+\" = ?\", v)", Expect: "SQLS/pipeline-update"},
 		Breaker{Name: "advance-on-exporter-error", File: "internal/replication/pipeline.go",
 			Old: "\t\t\t\t\t\tcase <-time.After(p.pipelineConfig.PushRetryPeriod + time.Duration(rand.Int63n(int64(p.pipelineConfig.PushRetryPeriod/2)))):\n\t\t\t\t\t\t\tcontinue\n", New: "\t\t\t\t\t\tcase <-time.After(p.pipelineConfig.PushRetryPeriod + time.Duration(rand.Int63n(int64(p.pipelineConfig.PushRetryPeriod/2)))):\n", Expect: "DOM/ack-before-advance"},
 		Breaker{Name: "advance-without-waiting-for-exporter", File: "internal/replication/pipeline.go",
@@ -54,6 +59,7 @@ func checkC33(c *core.Ctx) {
 	ruleContextPerAttempt(c)
 	ruleReplicationSeesLogsInIDOrder(c)
 	rulePartiallyFilledSlots(c)
+	ruleLoopCarriedError(c)
 }
 
 func ruleAckBeforeAdvance(c *core.Ctx) {
@@ -408,6 +414,36 @@ func rulePipelineStateWriters(c *core.Ctx) {
 			}
 		}
 		c.Check(ok, "SQLS/pipeline-state", declKey(d), pos(c, d.Decl), "update pipelines set last_log_id = <arg> where id = <arg>", "StorePipelineState does not update last_log_id of exactly the given pipeline with the given value")
+	}
+	// UpdatePipeline writes every entry of the map it is given, nil values included: the reset
+	// clears the position by sending {last_log_id: nil}
+	if d := fn(c, pkgSysStore, "DefaultStore", "UpdatePipeline"); d != nil {
+		info := d.Pkg.TypesInfo
+		var loop *ast.RangeStmt
+		ast.Inspect(d.Decl.Body, func(x ast.Node) bool {
+			if r, ok := x.(*ast.RangeStmt); ok && loop == nil && argIsParam(c, d, r.X, 2) {
+				loop = r
+			}
+			return true
+		})
+		if loop == nil {
+			c.Unrecognised("SQLS/pipeline-update", declKey(d)+":every-entry", pos(c, d.Decl), "UpdatePipeline does not range over its map parameter")
+		} else {
+			sets := callsTo(info, loop.Body, named("Set"))
+			conditional := len(sets) == 0
+			for _, st := range sets {
+				if len(astx.FactsAt(info, loop.Body, st.Pos())) > 0 {
+					conditional = true
+				}
+			}
+			ast.Inspect(loop.Body, func(x ast.Node) bool {
+				if b, ok := x.(*ast.BranchStmt); ok && (b.Tok == token.CONTINUE || b.Tok == token.BREAK) {
+					conditional = true
+				}
+				return true
+			})
+			c.Check(!conditional, "SQLS/pipeline-update", declKey(d)+":every-entry", pos(c, loop), "every map entry becomes a SET, whatever its value", "UpdatePipeline skips some entries of the map it is given: ResetPipeline's {last_log_id: nil} no longer clears the position, the restarted pipeline resumes from the old one and nothing is exported again")
+		}
 	}
 	// UpdatePipeline callers: last_log_id only ever set to nil
 	for _, s := range ix.Sites {
